@@ -11,10 +11,12 @@ package c15
 import (
 	"bufio"
 	"bytes"
+	"crypto/sha256"
 	"encoding/base64"
 	"encoding/hex"
 	"encoding/json"
 	"fmt"
+	"math/rand"
 	"os"
 	"reflect"
 	"sort"
@@ -567,6 +569,8 @@ func TestConfig(t *testing.T) {
 		return
 	}
 
+	injs := map[string][]*injection{}
+	save0s := map[string]tree{}
 	nsettings := 0
 	npairs := 0
 	perSection := map[string]int{}
@@ -600,6 +604,7 @@ func TestConfig(t *testing.T) {
 			r.emit(fact{"fact": "default", "section": sec.name, "err": true, "panic": l.outcome == "panic", "valid": false, "detail": "saved default does not load: " + l.err})
 			continue
 		}
+		save0s[sec.name] = save0
 		settings := map[string][]string{}
 		leaves(disp0, nil, settings)
 		leaves(save0, nil, settings)
@@ -669,7 +674,9 @@ func TestConfig(t *testing.T) {
 				}
 			}
 			if only == "" {
-				r.hiddenCase(sec, name, path, save0, full, kind)
+				if in := r.hiddenCase(sec, name, path, save0, full, kind); in != nil {
+					injs[sec.name] = append(injs[sec.name], in)
+				}
 			}
 		}
 		// a value the loader swallows must not take other settings with it: every kept (setting, class)
@@ -692,6 +699,9 @@ func TestConfig(t *testing.T) {
 			}
 			r.rejectCases(sec, raw0)
 		}
+	}
+	if only == "" {
+		r.subsetCases(full, save0s, injs)
 	}
 	res.Set("sections", len(sections))
 	res.Set("settings_extracted_from_code", nsettings)
@@ -831,46 +841,69 @@ func (r *run) loadCase(sec section, name string, path []string, kind, skind, cla
 	return ci
 }
 
+// marker is the recognisable value placed into one setting (64 hex characters, so it also is a cluster secret).
+func (r *run) marker(sec, name string) string {
+	h := sha256.Sum256([]byte(fmt.Sprintf("c15-marker/%d/%s/%s", hx.Seed(), sec, name)))
+	return hex.EncodeToString(h[:])
+}
+
+type pathVal struct {
+	path []string
+	v    interface{}
+}
+
+// injection: how a marker gets into a setting (edits of the section's JSON) and what to look for afterwards.
+type injection struct {
+	sec, name string
+	tokens    []string
+	sent      string
+	edits     []pathVal
+}
+
+func applyEdits(j tree, edits []pathVal) tree {
+	o := clone(j).(tree)
+	for _, e := range edits {
+		set(o, e.path, e.v, false)
+	}
+	return o
+}
+
 // hiddenCase injects a recognisable value into a setting and records whether the display forms show it.
-func (r *run) hiddenCase(sec section, name string, path []string, save0, full tree, kind string) {
+// It returns the injection that worked (nil if the setting takes none).
+func (r *run) hiddenCase(sec section, name string, path []string, save0, full tree, kind string) *injection {
 	tokens := strings.Split(path[len(path)-1], "_")
-	sentinel := r.sv.hex32
-	var candidates []tree
-	mkj := func(v interface{}) tree {
-		j := clone(save0).(tree)
-		set(j, path, v, false)
-		return j
+	m := r.marker(sec.name, name)
+	var candidates []injection
+	add := func(sent string, edits ...pathVal) {
+		candidates = append(candidates, injection{sec: sec.name, name: name, tokens: tokens, sent: sent, edits: edits})
 	}
 	if kind == "" || kind == "object" {
-		candidates = append(candidates, mkj(tree{"verifuser": sentinel}))
+		add(m, pathVal{path, tree{"verifuser": m}})
 	}
 	switch kind {
 	case "string", "":
-		candidates = append(candidates, mkj(sentinel))
+		add(m, pathVal{path, m})
 		// a private key has to be a key: a real one, with the matching id and a listen address (restapi)
-		priv, pub, _ := crypto.GenerateEd25519Key(bytes.NewReader(bytes.Repeat([]byte(sentinel), 4)))
+		priv, pub, _ := crypto.GenerateEd25519Key(bytes.NewReader(bytes.Repeat([]byte(m), 4)))
 		pb, _ := crypto.MarshalPrivateKey(priv)
 		pid, _ := peer.IDFromPublicKey(pub)
-		j := mkj(base64.StdEncoding.EncodeToString(pb))
-		if _, has := get(j, []string{"id"}); has || sec.name == "restapi" {
-			set(j, []string{"id"}, peer.Encode(pid), false)
-			set(j, []string{"libp2p_listen_multiaddress"}, []interface{}{r.sv.maddr}, false)
+		b64 := base64.StdEncoding.EncodeToString(pb)
+		if _, has := get(save0, []string{"id"}); has || sec.name == "restapi" {
+			add(b64, pathVal{path, b64}, pathVal{[]string{"id"}, peer.Encode(pid)},
+				pathVal{[]string{"libp2p_listen_multiaddress"}, []interface{}{r.sv.maddr}})
+		} else {
+			add(b64, pathVal{path, b64})
 		}
-		j["__sentinel"] = base64.StdEncoding.EncodeToString(pb)
-		candidates = append(candidates, j)
 	case "object":
 	default:
-		return
+		return nil
 	}
+	var worked *injection
 	for _, scope := range []string{"alone", "manager"} {
 		injected, shown := false, false
-		for _, j := range candidates {
-			sent := sentinel
-			if s, ok := j["__sentinel"].(string); ok {
-				sent = s
-			}
-			jj := clone(j).(tree)
-			delete(jj, "__sentinel")
+		for ci := range candidates {
+			c := candidates[ci]
+			jj := applyEdits(save0, c.edits)
 			var l loaded
 			if scope == "alone" {
 				b, _ := json.Marshal(jj)
@@ -882,11 +915,14 @@ func (r *run) hiddenCase(sec section, name string, path []string, save0, full tr
 				continue
 			}
 			// injected = the value is really held by the configuration (it comes back in the saved form)
-			if !strings.Contains(string(l.raw), sent) {
+			if !strings.Contains(string(l.raw), c.sent) {
 				continue
 			}
 			injected = true
-			if strings.Contains(l.display, sent) || strings.Contains(l.display, hex.EncodeToString([]byte(sent))) {
+			if worked == nil && scope == "alone" {
+				worked = &candidates[ci]
+			}
+			if strings.Contains(l.display, c.sent) {
 				shown = true
 			}
 		}
@@ -894,6 +930,123 @@ func (r *run) hiddenCase(sec section, name string, path []string, save0, full tr
 			"injected": injected, "shown": shown})
 		r.res.Count(1)
 	}
+	return worked
+}
+
+// subsetCases: a full configuration file with a marker in every setting that takes one, in EVERY section, is loaded
+// by Managers that register only part of the components - the families the binaries use (cmdutils: the nine base
+// components + raft|crdt|both + no|badger|leveldb|both datastores), small ones (cluster alone, cluster + crdt) and
+// seeded random subsets. Recorded: per (family, section, setting) whether the display form shows the marker, and per
+// (family, unregistered section) whether ToJSON still carries the section unchanged.
+func (r *run) subsetCases(full tree, save0s map[string]tree, injs map[string][]*injection) {
+	// the marked file: per section as many injections as are compatible with each other
+	marked := clone(full).(tree)
+	kept := map[string][]*injection{}
+	for _, sec := range sections {
+		cur, ok := save0s[sec.name]
+		if !ok {
+			continue
+		}
+		for _, in := range injs[sec.name] {
+			try := applyEdits(cur, in.edits)
+			b, _ := json.Marshal(try)
+			l := loadAlone(sec, b)
+			if l.outcome != "accepted" || l.raw == nil {
+				continue
+			}
+			okAll := strings.Contains(string(l.raw), in.sent)
+			for _, prev := range kept[sec.name] {
+				if !strings.Contains(string(l.raw), prev.sent) {
+					okAll = false
+				}
+			}
+			if okAll {
+				cur = try
+				kept[sec.name] = append(kept[sec.name], in)
+			}
+		}
+		set(marked, sectionPath(sec), cur, false)
+	}
+	markedRaw, _ := json.Marshal(marked)
+
+	base := []string{"cluster", "restapi", "ipfsproxy", "ipfshttp", "stateless", "pubsubmon", "disk", "metrics", "tracing"}
+	families := map[string][]string{"all": nil, "cluster-only": {"cluster"}, "cluster+crdt": {"cluster", "crdt"}, "cluster+raft": {"cluster", "raft"}}
+	for _, s := range sections {
+		families["all"] = append(families["all"], s.name)
+	}
+	for _, cons := range [][]string{{"raft"}, {"crdt"}, {"raft", "crdt"}} {
+		for _, dst := range [][]string{{}, {"badger"}, {"leveldb"}, {"badger", "leveldb"}} {
+			n := "service:" + strings.Join(cons, "+") + "/" + strings.Join(dst, "+")
+			families[n] = append(append(append([]string{}, base...), cons...), dst...)
+		}
+	}
+	rng := rand.New(rand.NewSource(hx.Seed()))
+	nrand := 12
+	if hx.Thorough() {
+		nrand = 60
+	}
+	for i := 0; i < nrand; i++ {
+		sub := []string{"cluster"}
+		for _, s := range sections[1:] {
+			if rng.Intn(2) == 0 {
+				sub = append(sub, s.name)
+			}
+		}
+		families[fmt.Sprintf("random%02d:%s", i, strings.Join(sub[1:], "+"))] = sub
+	}
+	names := []string{}
+	for n := range families {
+		names = append(names, n)
+	}
+	sort.Strings(names)
+	for _, fam := range names {
+		reg := map[string]bool{}
+		for _, s := range families[fam] {
+			reg[s] = true
+		}
+		m := config.NewManager()
+		for _, s := range sections {
+			if reg[s.name] {
+				m.RegisterComponent(s.typ, s.mk())
+			}
+		}
+		err, p := guard(func() error { return m.LoadJSON(markedRaw) })
+		outcome := outcomeOf(err, p)
+		var disp, saved []byte
+		if outcome == "accepted" {
+			guard(func() error { var e error; disp, e = m.ToDisplayJSON(); return e })
+			guard(func() error { var e error; saved, e = m.ToJSON(); return e })
+		}
+		m.Shutdown()
+		savedT, _ := parse(saved)
+		for _, sec := range sections {
+			for _, in := range kept[sec.name] {
+				r.emit(fact{"fact": "hidden", "section": sec.name, "setting": in.name, "tokens": in.tokens, "scope": "subset:" + fam,
+					"registered": reg[sec.name], "injected": outcome == "accepted", "shown": strings.Contains(string(disp), in.sent)})
+				r.res.Count(1)
+			}
+			if !reg[sec.name] {
+				want, _ := get(marked, sectionPath(sec))
+				got, has := get(savedT, sectionPath(sec))
+				r.emit(fact{"fact": "subset", "family": fam, "section": sec.name, "registered": false, "outcome": outcome,
+					"kept": has && canon(got) == canon(want), "panic": p})
+				r.res.Case(fact{"family": fam, "section": sec.name}, true)
+			}
+		}
+		if outcome != "accepted" {
+			detail := ""
+			if err != nil {
+				detail = err.Error()
+			}
+			r.emit(fact{"fact": "subset", "family": fam, "section": "*", "registered": true, "outcome": outcome, "kept": false, "panic": p, "detail": detail})
+		}
+	}
+	r.res.Set("manager_subset_families", len(names))
+	nm := 0
+	for _, k := range kept {
+		nm += len(k)
+	}
+	r.res.Set("markers_in_full_file", nm)
 }
 
 // rejectCases sets out-of-range values directly on the fields of the real Config struct; when Validate rejects
